@@ -112,6 +112,7 @@ func runNative(eng *Engine, verif, repo string, pkg string, cases []replayCase) 
 	cmd.Stdout = &out
 	cmd.Stderr = &out
 	runErr := cmd.Run()
+	os.WriteFile(filepath.Join(verif, ".work", "last_native.log"), out.Bytes(), 0o644)
 	res := make([]nativeResult, len(cases))
 	seen := 0
 	sc := bufio.NewScanner(bytes.NewReader(out.Bytes()))
@@ -169,7 +170,9 @@ func nativeReplay(verif, repo, prop string, v *Violation, path string) (bool, st
 	r := res[0]
 	switch v.Kind {
 	case "ASSERT":
-		return r.Outcome == "ASSERT" && r.Label == v.Label, r.Raw, nil
+		// the engine keeps going after a failed assertion, the native run stops at the first one:
+		// any natively failing assertion on this input confirms a violation on it
+		return r.Outcome == "ASSERT", r.Raw, nil
 	case "PANIC":
 		return r.Outcome == "PANIC", r.Raw, nil
 	case "BLOCKED", "DIVERGE":
